@@ -184,6 +184,14 @@ instance : ∀ (ops : List Op) (s : St), Decidable (Valid s ops)
     have := instDecidableValid ops (step s op).1
     infer_instance
 
+/-! ### the kernel side: `controlPlaneCore.ReleaseUdpConnStateTuples` -/
+
+/-- `BeginRelease(ks)`; `BpfMapBatchDelete(ConnStateMap, released keys)`; `FinalizeRelease`.
+`kern` = the tuples present in the kernel conn-state map.  Returns the tracker and the map. -/
+def releaseKernel (s : St) (kern : List Key) (ks : List Key) : St × List Key :=
+  ((step (step s (.begin ks)).1 (.finalize (step s (.begin ks)).2)).1,
+   kern.filter fun k => !(step s (.begin ks)).2.contains k)
+
 /-! ### hand-over between two trackers (`TransferRetainedUdpConnStateTuplesFrom`) -/
 
 /-- `currentTracker.Retain(keys); previousTracker.Forget(keys)` for one key, when the two
